@@ -1,11 +1,234 @@
-/- Hand-written executable model (tie B): Geo.  Core Lean only — no Mathlib import in this file. -/
+/- Hand-written executable model (tie B): Geo — the geometric helpers of `gstools/tools/geometric.py`
+   (rotation planes, Givens rotations, (de)rotation, stretching, (an)isometrize matrices, main axes,
+   padding rules of `set_angles` / `set_anis` / `set_len_anis`, `ang2dir`) and the way `CovModel`
+   uses them (`isometrize`, `anisometrize`, `main_axes`, `_get_iso_rad`, `pre_pos`).
+   Core Lean only — no Mathlib import in this file.
+
+   Matrices are total functions `Nat → Nat → α` with the dimension travelling separately, vectors are
+   `Nat → α`, angle / anisotropy vectors are lists.  The definitions follow the code statement by
+   statement (sequential writes of `givens_rotation`, `matmul` order of the loops, `(-1) ** i`). -/
 import GSV.Proto
 open Lean GSV GSV.Proto GSV.Transc
 namespace GSV.Model.Geo
 
+variable {α : Type} [Arith α] [Transc α] [DecidableLT α] [DecidableLE α]
+
+/-! ### sizes and planes -/
+
+/-- `no_of_angles(dim) = (dim * (dim - 1)) // 2` -/
+def noOfAngles (dim : Nat) : Nat := (dim * (dim - 1)) / 2
+
+/-- `rotation_planes(dim) = [(i, j) for j in range(1, dim) for i in range(j)]` -/
+def rotationPlanes (dim : Nat) : List (Nat × Nat) :=
+  (idxRange 1 dim).flatMap fun j => (idxRange 0 j).map fun i => (i, j)
+
+/-! ### padding rules -/
+
+/-- `set_angles(dim, angles)`: cut to `no_of_angles(dim)` entries, pad *behind* with `0.0` -/
+def setAngles (dim : Nat) (angles : List α) : List α :=
+  let a := angles.take (noOfAngles dim)
+  a ++ List.replicate (noOfAngles dim - a.length) ((0:Nat):α)
+
+/-- `set_anis(dim, anis)`: cut to `dim - 1` entries, pad *in front* with `1.0` -/
+def setAnis (dim : Nat) (anis : List α) : List α :=
+  let a := anis.take (dim - 1)
+  if a.length < dim - 1 then List.replicate (dim - a.length - 1) ((1:Nat):α) ++ a else a
+
+/-- `np.pad(ls, (0, dim - len(ls)), "edge")` on a non-empty list -/
+def padEdge (dim : Nat) (ls : List α) (last : α) : List α :=
+  ls ++ List.replicate (dim - ls.length) last
+
+/-- `set_len_anis(dim, len_scale, anis)` (without the lat-lon branch, which belongs to C13):
+    one length scale → `set_anis`; several → ratios `ls[i] / ls[0]` after edge padding;
+    `ValueError` unless every ratio is `> 0`; `IndexError` on an empty `len_scale`. -/
+def setLenAnis (dim : Nat) (lenScale anis : List α) : Except String (α × List α) :=
+  match lenScale.take dim with
+  | [] => .error "IndexError"
+  | l0 :: rest =>
+    let outAnis :=
+      if rest.length = 0 then setAnis dim anis
+      else
+        let ls := padEdge dim (l0 :: rest) ((l0 :: rest).getLast?.getD l0)
+        (idxRange 1 dim).map fun i => ls[i]?.getD l0 / l0
+    if outAnis.all (fun a => decide (a > ((0:Nat):α))) then .ok (l0, outAnis) else .error "ValueError"
+
+/-! ### matrices -/
+
+/-- `np.eye(dim)` -/
+def eye : Nat → Nat → α := fun i j => if i = j then ((1:Nat):α) else ((0:Nat):α)
+
+/-- `np.matmul(A, B)` for `dim × dim` matrices -/
+def matmul (dim : Nat) (A B : Nat → Nat → α) : Nat → Nat → α :=
+  fun i j => forRange 0 dim ((0:Nat):α) fun k acc => acc + A i k * B k j
+
+/-- `A.T` -/
+def transpose (A : Nat → Nat → α) : Nat → Nat → α := fun i j => A j i
+
+/-- `np.dot(M, x)` for one position vector -/
+def applyMat (dim : Nat) (M : Nat → Nat → α) (x : Nat → α) : Nat → α :=
+  fun i => forRange 0 dim ((0:Nat):α) fun k acc => acc + M i k * x k
+
+/-- `np.linalg.norm(v)` of one column -/
+def norm2 (dim : Nat) (v : Nat → α) : α :=
+  Transc.sqrt (forRange 0 dim ((0:Nat):α) fun k acc => acc + v k * v k)
+
+/-- `np.diag(l)` -/
+def diag (l : List α) : Nat → Nat → α :=
+  fun i j => if i = j then l[i]?.getD ((0:Nat):α) else ((0:Nat):α)
+
+/-- `givens_rotation(dim, plane, angle)`: four sequential writes into the identity -/
+def givens (plane : Nat × Nat) (angle : α) : Nat → Nat → α :=
+  let r := upd2 eye plane.1 plane.1 (Transc.cos angle)
+  let r := upd2 r plane.2 plane.2 (Transc.cos angle)
+  let r := upd2 r plane.1 plane.2 (-(Transc.sin angle))
+  upd2 r plane.2 plane.1 (Transc.sin angle)
+
+/-- the `(plane, (-1) ** i * angle)` sequence both rotation loops run over
+    (`enumerate(zip(angles, planes))`; `angles` is already padded) -/
+def signedSeq (dim : Nat) (angles : List α) : List ((Nat × Nat) × α) :=
+  ((angles.zip (rotationPlanes dim)).zipIdx).map fun p => (p.1.2, ((((-1:Int) ^ p.2 : Int)) : α) * p.1.1)
+
+/-- `matrix_rotate(dim, angles)`: `result = G_i · result` -/
+def matrixRotate (dim : Nat) (angles : List α) : Nat → Nat → α :=
+  (signedSeq dim (setAngles dim angles)).foldl (fun r p => matmul dim (givens p.1 p.2) r) eye
+
+/-- `matrix_derotate(dim, angles)`: negated padded angles, `result = result · G_i` -/
+def matrixDerotate (dim : Nat) (angles : List α) : Nat → Nat → α :=
+  (signedSeq dim ((setAngles dim angles).map fun a => -a)).foldl (fun r p => matmul dim r (givens p.1 p.2)) eye
+
+/-- `matrix_isotropify(dim, anis) = diag([1] ++ 1 / set_anis)` -/
+def matrixIsotropify (dim : Nat) (anis : List α) : Nat → Nat → α :=
+  diag (((1:Nat):α) :: (setAnis dim anis).map fun a => ((1:Nat):α) / a)
+
+/-- `matrix_anisotropify(dim, anis) = diag([1] ++ set_anis)` -/
+def matrixAnisotropify (dim : Nat) (anis : List α) : Nat → Nat → α :=
+  diag (((1:Nat):α) :: setAnis dim anis)
+
+/-- `matrix_isometrize = isotropify · derotate` -/
+def matrixIsometrize (dim : Nat) (angles anis : List α) : Nat → Nat → α :=
+  matmul dim (matrixIsotropify dim anis) (matrixDerotate dim angles)
+
+/-- `matrix_anisometrize = rotate · anisotropify` -/
+def matrixAnisometrize (dim : Nat) (angles anis : List α) : Nat → Nat → α :=
+  matmul dim (matrixRotate dim angles) (matrixAnisotropify dim anis)
+
+/-- `rotated_main_axes(dim, angles) = matrix_rotate(dim, angles).T` (row `i` = `i`-th main axis) -/
+def mainAxes (dim : Nat) (angles : List α) : Nat → Nat → α :=
+  transpose (matrixRotate dim angles)
+
+/-! ### how the model / pipelines use them -/
+
+/-- `CovModel.isometrize` of one position (non lat-lon) -/
+def isometrize (dim : Nat) (angles anis : List α) (x : Nat → α) : Nat → α :=
+  applyMat dim (matrixIsometrize dim angles anis) x
+
+/-- `CovModel.anisometrize` of one position (non lat-lon) -/
+def anisometrize (dim : Nat) (angles anis : List α) (x : Nat → α) : Nat → α :=
+  applyMat dim (matrixAnisometrize dim angles anis) x
+
+/-- `CovModel._get_iso_rad` of one position -/
+def isoRad (dim : Nat) (angles anis : List α) (x : Nat → α) : α :=
+  norm2 dim (isometrize dim angles anis x)
+
+/-- `Field.pre_pos`: every pipeline (SRF, Krige, CondSRF) isometrizes its positions once -/
+def prePos (dim : Nat) (angles anis : List α) (xs : List (Nat → α)) : List (Nat → α) :=
+  xs.map (isometrize dim angles anis)
+
+/-- Euclidean distance of two (isometrized) positions: `Krige._get_dists` -/
+def dist (dim : Nat) (u v : Nat → α) : α := norm2 dim fun k => u k - v k
+
+/-- `CovModel.cov_spatial` / `vario_spatial` / `cor_spatial` with radial profile `f` -/
+def covSpatial (f : α → α) (dim : Nat) (angles anis : List α) (h : Nat → α) : α :=
+  f (isoRad dim angles anis h)
+
+/-- phase of one Fourier mode `k` at position `x` (what `summate` evaluates) -/
+def phase (dim : Nat) (k x : Nat → α) : α :=
+  forRange 0 dim ((0:Nat):α) fun d acc => acc + k d * x d
+
+/-! ### ang2dir -/
+
+/-- `np.prod` of a list -/
+def prodL (l : List α) : α := l.foldl (fun a b => a * b) ((1:Nat):α)
+
+/-- `ang2dir(angles)` for one direction given by `n ≥ 1` spherical angles (`dim = n + 1`) -/
+def ang2dir (angles : List α) : Except String (List α) :=
+  let n := angles.length
+  if n = 0 then .error "ValueError" else
+  let s := angles.map Transc.sin
+  let v0 := prodL s
+  let rest := (idxRange 1 (n + 1)).map fun i =>
+    prodL (s.drop i) * Transc.cos (angles[i - 1]?.getD ((0:Nat):α))
+  let vec := v0 :: rest
+  if n + 1 = 2 ∨ n + 1 = 3 then
+    match vec with
+    | a :: b :: t => .ok (b :: a :: t)
+    | _ => .ok vec
+  else .ok vec
+
+/-! ### driver -/
+
+def matOut (dim : Nat) (m : Nat → Nat → Float) : Json := fl2 (tab2 m dim dim)
+
+def vecOfArr (a : Array Float) (n col : Nat) : Nat → Float := fun i => a[i * n + col]!
+
 /-- line-protocol operations of this model; `none` = not one of mine -/
 def ops (op : String) (j : Json) : Option (Except String Json) :=
   match op with
+  | "geo_no_angles" => some (do
+      let dim ← getNat j "dim"
+      return il [((noOfAngles dim : Nat) : Int)])
+  | "geo_planes" => some (do
+      let dim ← getNat j "dim"
+      return il2 ((rotationPlanes dim).map fun p => [((p.1 : Nat) : Int), ((p.2 : Nat) : Int)]))
+  | "geo_set_angles" => some (do
+      let dim ← getNat j "dim"; let a ← getFloats j "angles"
+      return fl (setAngles dim a.toList))
+  | "geo_set_anis" => some (do
+      let dim ← getNat j "dim"; let a ← getFloats j "anis"
+      return fl (setAnis dim a.toList))
+  | "geo_set_len_anis" => some (do
+      let dim ← getNat j "dim"; let l ← getFloats j "len_scale"; let a ← getFloats j "anis"
+      match setLenAnis dim l.toList a.toList with
+      | .ok (l0, an) => return Json.arr #[fbits l0, fl an]
+      | .error e => return Json.str e)
+  | "geo_givens" => some (do
+      let dim ← getNat j "dim"; let p ← getNat j "p"; let q ← getNat j "q"; let a ← getFloat j "angle"
+      return matOut dim (givens (p, q) a))
+  | "geo_rotate" => some (do
+      let dim ← getNat j "dim"; let a ← getFloats j "angles"
+      return matOut dim (matrixRotate dim a.toList))
+  | "geo_derotate" => some (do
+      let dim ← getNat j "dim"; let a ← getFloats j "angles"
+      return matOut dim (matrixDerotate dim a.toList))
+  | "geo_main_axes" => some (do
+      let dim ← getNat j "dim"; let a ← getFloats j "angles"
+      return matOut dim (mainAxes dim a.toList))
+  | "geo_isotropify" => some (do
+      let dim ← getNat j "dim"; let a ← getFloats j "anis"
+      return matOut dim (matrixIsotropify dim a.toList))
+  | "geo_anisotropify" => some (do
+      let dim ← getNat j "dim"; let a ← getFloats j "anis"
+      return matOut dim (matrixAnisotropify dim a.toList))
+  | "geo_isometrize" => some (do
+      let dim ← getNat j "dim"; let a ← getFloats j "angles"; let s ← getFloats j "anis"
+      return matOut dim (matrixIsometrize dim a.toList s.toList))
+  | "geo_anisometrize" => some (do
+      let dim ← getNat j "dim"; let a ← getFloats j "angles"; let s ← getFloats j "anis"
+      return matOut dim (matrixAnisometrize dim a.toList s.toList))
+  | "geo_model_pos" => some (do
+      -- CovModel.isometrize / anisometrize / _get_iso_rad on a (dim × n) position tuple (row-major)
+      let dim ← getNat j "dim"; let n ← getNat j "n"
+      let a ← getFloats j "angles"; let s ← getFloats j "anis"; let pos ← getFloats j "pos"
+      let cols := (List.range n).map fun c => vecOfArr pos n c
+      let iso := cols.map fun x => tab (isometrize dim a.toList s.toList x) dim
+      let ani := cols.map fun x => tab (anisometrize dim a.toList s.toList x) dim
+      let rad := cols.map fun x => isoRad dim a.toList s.toList x
+      return Json.arr #[fl2 iso, fl2 ani, fl rad])
+  | "geo_ang2dir" => some (do
+      let a ← getFloats j "angles"
+      match ang2dir a.toList with
+      | .ok v => return fl v
+      | .error e => return Json.str e)
   | _ => none
 
 end GSV.Model.Geo
